@@ -67,7 +67,11 @@ def stream_inliner(eng, extra=()):
         if fi.cls in ('stream.H2Stream', 'windows.WindowManager') and \
                 fi.name not in ('__init__', '__repr__'):
             names.add(q)
+    names |= {'connection._add_frame_priority',
+              'connection._set_frame_priority',
+              'connection._validate_priority'}
     names -= {'stream.H2Stream._build_headers_frames',
+              'stream.H2Stream.push_stream_in_band',
               'stream.H2Stream._process_received_headers',
               'stream.H2Stream.send_headers',
               'stream.H2Stream.receive_headers'}
